@@ -64,7 +64,18 @@ def run_case(case):
         want = tuple(spec.declared) + tuple(implementedBy(b) for b in cls.__bases__)
         if len(want) != len(spec.__bases__) or any(a is not b for a, b in zip(want, spec.__bases__)):
             bases_ok = False
-    nid = {id(o): k for k, o in objs.items()}
+    # specifications of super objects: implementedBy(super(B, ob)) / providedBy(super(B, ob)), asked in
+    # the order given (two self classes sharing B in one process is the interesting case)
+    snode = n + 2 + len(case["classes"])
+    for j, sd in enumerate(case.get("supers", [])):
+        sup = super(classes[sd["this"]], classes[sd["self"]]())
+        objs[snode + j] = providedBy(sup) if sd.get("via") == "providedBy" else implementedBy(sup)
+    nid = {}
+    for k in sorted(objs):
+        nid.setdefault(id(objs[k]), k)
+    # equal-but-distinct interfaces: same __name__ and __module__ as I<i>, another object (no bases, so
+    # nothing is subscribed anywhere)
+    twins = [InterfaceClass("I%d" % i, (), {}, __module__="c20") for i in range(1, n + 1)]
 
     def ids(it):
         return [nid.get(id(o), UNKNOWN) for o in it]
@@ -101,6 +112,7 @@ def run_case(case):
     out = {"graph": graph, "ifs": ifs, "bases_ok": bases_ok}
     out["iter"] = [ob(lambda A=A: list(A)) for A in decls]
     out["contains"] = [obb(lambda A=A: [x in A for x in allnodes]) for A in decls]
+    out["ctwin"] = [obb(lambda A=A: [t in A for t in twins]) for A in decls]
     out["flat"] = [ob(lambda A=A: list(A.flattened())) for A in decls]
     out["sub"] = [[ob(lambda A=A, B=B: list(A - B)) for B in decls] for A in decls]
     out["add"] = [[ob(lambda A=A, B=B: list(A + B)) for B in decls] for A in decls]
@@ -133,6 +145,7 @@ def run_case(case):
             inst.append({"dp": ob(lambda: list(directlyProvidedBy(o))), "raised": raised,
                          "prov": ob(lambda: list(providedBy(o)))})
     out["inst"] = inst
+    out["ptwin"] = obb(lambda: [t in providedBy(o) for t in twins])
     return out
 
 
